@@ -202,3 +202,13 @@ m("C05-revert-D2-delete-node-keeps-lineage", "C05", "user_actions/user_delete_no
   "                    self.tracks.get_track_id(succ),\n                    self.tracks.get_next_lineage_id(),", "                    self.tracks.get_track_id(succ),\n                    None,")
 m("C01-revert-D9-per-axis-features-unregistered", "C01", "data_model/tracks.py",
   "                    feature_dict[attr] = {", "                    features[attr] = {")
+m("C05-revert-D15-attributes-not-copied", "C05", "user_actions/user_add_node.py",
+  "        attributes = dict(attributes)\n", "        attributes = attributes\n")
+m("C11-revert-D18-delete-node-saves-registered-only", "C11", "actions/add_delete_node.py",
+  "            for key, val in self.tracks.graph.nodes[node].items()\n            if val is not None",
+  "            for key, val in self.tracks.graph.nodes[node].items()\n            if val is not None and key in self.tracks.features.node_features")
+m("C11-revert-D19-no-rollback-in-delete-node", "C11", "user_actions/user_delete_node.py",
+  "            for action in reversed(self.actions):\n                action.inverse()\n            raise", "            raise")
+m("C16-revert-D20-sort-in-place", "C16", "data_model/solution_tracks.py",
+  "        candidates = sorted(\n            annotator.tracklet_id_to_nodes[track_id], key=lambda n: self.get_time(n)\n        )",
+  "        candidates = annotator.tracklet_id_to_nodes[track_id]\n        candidates.sort(key=lambda n: self.get_time(n))")
